@@ -13,6 +13,7 @@ All theorems hold for EVERY declaration list, EVERY body (any length), EVERY exp
 every scalar type `K`; `imBig : K → Bool` is the test `value.im.abs() > f64::EPSILON` the code applies to a
 numeric literal, and "real number" in the rules means `!imBig z`.
 -/
+set_option linter.unusedSimpArgs false
 namespace QV.C30
 open QV
 
@@ -126,6 +127,31 @@ theorem C30_realExpr_leaves (isRealLit : K → Bool) (Γ : Decls) (e : Expr K) :
   | var x =>
     simp only [Expr.vars, Expr.addrs, literals]
     exact ⟨fun h => (by cases h), fun h => (by simp at h)⟩
+
+/-- **C30 (which error, any depth).**  `should_be_real` reports the defect of the LEFTMOST bad leaf of the
+expression — undeclared region: `UndefinedMemoryReference`; non-REAL region, variable, non-real literal:
+`RealValueRequired` — and succeeds iff there is none. -/
+theorem C30_shouldBeReal_eq_first_leaf_error (imBig : K → Bool) (Γ : Decls) (e : Expr K) :
+    shouldBeReal imBig Γ e =
+      match (leafErrors imBig Γ e).head? with
+      | none => .ok ()
+      | some err => .error err := by
+  induction e with
+  | address r =>
+    simp only [shouldBeReal, leafErrors]
+    rcases Γ.get r.name with _ | t
+    · rfl
+    · cases t <;> simp
+  | call f e ih => simpa [shouldBeReal, leafErrors] using ih
+  | bin l o r ihl ihr =>
+    simp only [shouldBeReal, leafErrors, ihl, ihr]
+    cases hl : leafErrors imBig Γ l with
+    | nil => simp
+    | cons a as => simp
+  | number z => simp only [shouldBeReal, leafErrors]; cases imBig z <;> simp
+  | pi => simp [shouldBeReal, leafErrors]
+  | pre o e ih => simpa [shouldBeReal, leafErrors] using ih
+  | var x => simp [shouldBeReal, leafErrors]
 
 /-! ## 2. One instruction: the checker decides the typing judgement -/
 
@@ -406,98 +432,186 @@ theorem C30_append (imBig : K → Bool) (Γ : Decls) (b₁ b₂ : List (Instr K)
 
 /-! ## 4. Consistent renaming of memory regions -/
 
-private theorem get_rename (f : String → String) (hf : ∀ a b, f a = f b → a = b) (Γ : Decls) (n : String) :
-    (Γ.rename f).get (f n) = Γ.get n := by
+private theorem get_rename_on (f : String → String) (Γ : Decls) (n : String)
+    (h : ∀ m ∈ Γ.keys, f n = f m → n = m) : (Γ.rename f).get (f n) = Γ.get n := by
   induction Γ with
   | nil => rfl
   | cons p rest ih =>
     obtain ⟨m, t⟩ := p
+    have ih' := ih (fun m' hm' => h m' (by simp [Decls.keys] at hm' ⊢; exact Or.inr hm'))
     simp only [Decls.rename, Decls.get, List.map_cons, List.lookup_cons] at *
-    by_cases h : n = m
-    · subst h; simp
-    · have : f n ≠ f m := fun e => h (hf _ _ e)
-      simp [beq_eq_false_iff_ne.mpr h, beq_eq_false_iff_ne.mpr this]
-      exact ih
+    by_cases hnm : n = m
+    · subst hnm; simp
+    · have : f n ≠ f m := fun e => hnm (h m (by simp [Decls.keys]) e)
+      simp [beq_eq_false_iff_ne.mpr hnm, beq_eq_false_iff_ne.mpr this]
+      exact ih'
 
-private theorem shouldBeReal_rename (imBig : K → Bool) (f : String → String) (hf : ∀ a b, f a = f b → a = b)
-    (Γ : Decls) (e : Expr K) :
+private theorem shouldBeReal_rename_on (imBig : K → Bool) (f : String → String) (Γ : Decls) (e : Expr K)
+    (h : ∀ a ∈ e.addrs, ∀ m ∈ Γ.keys, f a.name = f m → a.name = m) :
     shouldBeReal imBig (Γ.rename f) (renameExpr f e) = shouldBeReal imBig Γ e := by
   induction e with
-  | address r => simp [renameExpr, shouldBeReal, get_rename f hf]
-  | call g e ih => simpa [renameExpr, shouldBeReal] using ih
-  | bin l o r ihl ihr => simp [renameExpr, shouldBeReal, ihl, ihr]
+  | address r =>
+    have := get_rename_on f Γ r.name (h r (by simp [Expr.addrs]))
+    simp [renameExpr, shouldBeReal, this]
+  | call g e ih => simpa [renameExpr, shouldBeReal] using ih (by simpa [Expr.addrs] using h)
+  | bin l o r ihl ihr =>
+    have hl := ihl (fun a ha => h a (by simp [Expr.addrs, ha]))
+    have hr := ihr (fun a ha => h a (by simp [Expr.addrs, ha]))
+    simp [renameExpr, shouldBeReal, hl, hr]
   | number z => simp [renameExpr, shouldBeReal]
   | pi => simp [renameExpr, shouldBeReal]
-  | pre o e ih => simpa [renameExpr, shouldBeReal] using ih
+  | pre o e ih => simpa [renameExpr, shouldBeReal] using ih (by simpa [Expr.addrs] using h)
   | var x => simp [renameExpr, shouldBeReal]
 
-/-- **C30 (renaming), one instruction**: renaming declarations and references by the same injective map
-changes nothing — not even the error. -/
-theorem C30_checkInstr_rename (imBig : K → Bool) (f : String → String) (hf : ∀ a b, f a = f b → a = b)
-    (Γ : Decls) (i : Instr K) :
+/-- **C30 (renaming), one instruction, weakest hypothesis**: it suffices that `f` does not identify a region
+the instruction mentions with a *different* declared region. -/
+theorem C30_checkInstr_rename_on (imBig : K → Bool) (f : String → String) (Γ : Decls) (i : Instr K)
+    (h : ∀ n ∈ i.names, ∀ m ∈ Γ.keys, f n = f m → n = m) :
     checkInstr imBig (Γ.rename f) (i.rename f) = checkInstr imBig Γ i := by
-  have g := get_rename f hf Γ
   cases i with
-  | realArg k e => simp [Instr.rename, checkInstr, shouldBeReal_rename imBig f hf]
+  | realArg k e =>
+    have := shouldBeReal_rename_on imBig f Γ e (fun a ha => h a.name (by simp [Instr.names]; exact ⟨a, ha, rfl⟩))
+    simp [Instr.rename, checkInstr, this]
   | arithmetic d s =>
     cases s with
-    | litInt => rcases ha : Γ.get d with _ | a <;> (try cases a) <;>
-        simp [Instr.rename, ArithOperand.rename, CmpOperand.rename, BinOperand.rename, checkInstr, checkArithmetic, checkComparison, checkBinaryLogic, checkBinaryLogicRef, checkUnaryLogic, checkMove, checkExchange, checkLoad, checkStore, g, ha]
-    | litReal => rcases ha : Γ.get d with _ | a <;> (try cases a) <;>
-        simp [Instr.rename, ArithOperand.rename, CmpOperand.rename, BinOperand.rename, checkInstr, checkArithmetic, checkComparison, checkBinaryLogic, checkBinaryLogicRef, checkUnaryLogic, checkMove, checkExchange, checkLoad, checkStore, g, ha]
-    | mref s => rcases ha : Γ.get d with _ | a <;> rcases hb : Γ.get s with _ | b <;> (try cases a) <;> (try cases b) <;>
-        simp [Instr.rename, ArithOperand.rename, CmpOperand.rename, BinOperand.rename, checkInstr, checkArithmetic, checkComparison, checkBinaryLogic, checkBinaryLogicRef, checkUnaryLogic, checkMove, checkExchange, checkLoad, checkStore, g, ha, hb]
+    | litInt =>
+      have g0 := get_rename_on f Γ d (h d (by simp [Instr.names, ArithOperand.names, CmpOperand.names, BinOperand.names]))
+      rcases ha : Γ.get d with _ | a <;> (try cases a) <;>
+        simp [Instr.rename, ArithOperand.rename, CmpOperand.rename, BinOperand.rename, checkInstr, checkArithmetic, checkComparison, checkBinaryLogic, checkBinaryLogicRef, checkUnaryLogic, checkMove, checkExchange, checkLoad, checkStore, g0, ha]
+    | litReal =>
+      have g0 := get_rename_on f Γ d (h d (by simp [Instr.names, ArithOperand.names, CmpOperand.names, BinOperand.names]))
+      rcases ha : Γ.get d with _ | a <;> (try cases a) <;>
+        simp [Instr.rename, ArithOperand.rename, CmpOperand.rename, BinOperand.rename, checkInstr, checkArithmetic, checkComparison, checkBinaryLogic, checkBinaryLogicRef, checkUnaryLogic, checkMove, checkExchange, checkLoad, checkStore, g0, ha]
+    | mref s =>
+      have g0 := get_rename_on f Γ d (h d (by simp [Instr.names, ArithOperand.names, CmpOperand.names, BinOperand.names]))
+      have g1 := get_rename_on f Γ s (h s (by simp [Instr.names, ArithOperand.names, CmpOperand.names, BinOperand.names]))
+      rcases ha : Γ.get d with _ | a <;> rcases hb : Γ.get s with _ | b <;> (try cases a) <;> (try cases b) <;>
+        simp [Instr.rename, ArithOperand.rename, CmpOperand.rename, BinOperand.rename, checkInstr, checkArithmetic, checkComparison, checkBinaryLogic, checkBinaryLogicRef, checkUnaryLogic, checkMove, checkExchange, checkLoad, checkStore, g0, g1, ha, hb]
   | comparison d l r =>
     cases r with
-    | litInt => rcases ha : Γ.get d with _ | a <;> rcases hb : Γ.get l with _ | b <;> (try cases a) <;> (try cases b) <;>
-        simp [Instr.rename, ArithOperand.rename, CmpOperand.rename, BinOperand.rename, checkInstr, checkArithmetic, checkComparison, checkBinaryLogic, checkBinaryLogicRef, checkUnaryLogic, checkMove, checkExchange, checkLoad, checkStore, g, ha, hb]
-    | litReal => rcases ha : Γ.get d with _ | a <;> rcases hb : Γ.get l with _ | b <;> (try cases a) <;> (try cases b) <;>
-        simp [Instr.rename, ArithOperand.rename, CmpOperand.rename, BinOperand.rename, checkInstr, checkArithmetic, checkComparison, checkBinaryLogic, checkBinaryLogicRef, checkUnaryLogic, checkMove, checkExchange, checkLoad, checkStore, g, ha, hb]
-    | mref r => rcases ha : Γ.get d with _ | a <;> rcases hb : Γ.get l with _ | b <;> rcases hc : Γ.get r with _ | c <;>
-        (try cases a) <;> (try cases b) <;> (try cases c) <;>
-        simp [Instr.rename, ArithOperand.rename, CmpOperand.rename, BinOperand.rename, checkInstr, checkArithmetic, checkComparison, checkBinaryLogic, checkBinaryLogicRef, checkUnaryLogic, checkMove, checkExchange, checkLoad, checkStore, g, ha, hb, hc]
+    | litInt =>
+      have g0 := get_rename_on f Γ d (h d (by simp [Instr.names, ArithOperand.names, CmpOperand.names, BinOperand.names]))
+      have g1 := get_rename_on f Γ l (h l (by simp [Instr.names, ArithOperand.names, CmpOperand.names, BinOperand.names]))
+      rcases ha : Γ.get d with _ | a <;> rcases hb : Γ.get l with _ | b <;> (try cases a) <;> (try cases b) <;>
+        simp [Instr.rename, ArithOperand.rename, CmpOperand.rename, BinOperand.rename, checkInstr, checkArithmetic, checkComparison, checkBinaryLogic, checkBinaryLogicRef, checkUnaryLogic, checkMove, checkExchange, checkLoad, checkStore, g0, g1, ha, hb]
+    | litReal =>
+      have g0 := get_rename_on f Γ d (h d (by simp [Instr.names, ArithOperand.names, CmpOperand.names, BinOperand.names]))
+      have g1 := get_rename_on f Γ l (h l (by simp [Instr.names, ArithOperand.names, CmpOperand.names, BinOperand.names]))
+      rcases ha : Γ.get d with _ | a <;> rcases hb : Γ.get l with _ | b <;> (try cases a) <;> (try cases b) <;>
+        simp [Instr.rename, ArithOperand.rename, CmpOperand.rename, BinOperand.rename, checkInstr, checkArithmetic, checkComparison, checkBinaryLogic, checkBinaryLogicRef, checkUnaryLogic, checkMove, checkExchange, checkLoad, checkStore, g0, g1, ha, hb]
+    | mref r =>
+      have g0 := get_rename_on f Γ d (h d (by simp [Instr.names, ArithOperand.names, CmpOperand.names, BinOperand.names]))
+      have g1 := get_rename_on f Γ l (h l (by simp [Instr.names, ArithOperand.names, CmpOperand.names, BinOperand.names]))
+      have g2 := get_rename_on f Γ r (h r (by simp [Instr.names, ArithOperand.names, CmpOperand.names, BinOperand.names]))
+      rcases ha : Γ.get d with _ | a <;> rcases hb : Γ.get l with _ | b <;> rcases hc : Γ.get r with _ | c <;> (try cases a) <;> (try cases b) <;> (try cases c) <;>
+        simp [Instr.rename, ArithOperand.rename, CmpOperand.rename, BinOperand.rename, checkInstr, checkArithmetic, checkComparison, checkBinaryLogic, checkBinaryLogicRef, checkUnaryLogic, checkMove, checkExchange, checkLoad, checkStore, g0, g1, g2, ha, hb, hc]
   | binaryLogic d s =>
     cases s with
-    | litInt => rcases ha : Γ.get d with _ | a <;> (try cases a) <;>
-        simp [Instr.rename, ArithOperand.rename, CmpOperand.rename, BinOperand.rename, checkInstr, checkArithmetic, checkComparison, checkBinaryLogic, checkBinaryLogicRef, checkUnaryLogic, checkMove, checkExchange, checkLoad, checkStore, g, ha]
-    | mref s => rcases ha : Γ.get d with _ | a <;> rcases hb : Γ.get s with _ | b <;> (try cases a) <;> (try cases b) <;>
-        simp [Instr.rename, ArithOperand.rename, CmpOperand.rename, BinOperand.rename, checkInstr, checkArithmetic, checkComparison, checkBinaryLogic, checkBinaryLogicRef, checkUnaryLogic, checkMove, checkExchange, checkLoad, checkStore, g, ha, hb]
-  | unaryLogic op x => cases op <;> rcases ha : Γ.get x with _ | a <;> (try cases a) <;>
-        simp [Instr.rename, ArithOperand.rename, CmpOperand.rename, BinOperand.rename, checkInstr, checkArithmetic, checkComparison, checkBinaryLogic, checkBinaryLogicRef, checkUnaryLogic, checkMove, checkExchange, checkLoad, checkStore, g, ha]
+    | litInt =>
+      have g0 := get_rename_on f Γ d (h d (by simp [Instr.names, ArithOperand.names, CmpOperand.names, BinOperand.names]))
+      rcases ha : Γ.get d with _ | a <;> (try cases a) <;>
+        simp [Instr.rename, ArithOperand.rename, CmpOperand.rename, BinOperand.rename, checkInstr, checkArithmetic, checkComparison, checkBinaryLogic, checkBinaryLogicRef, checkUnaryLogic, checkMove, checkExchange, checkLoad, checkStore, g0, ha]
+    | mref s =>
+      have g0 := get_rename_on f Γ d (h d (by simp [Instr.names, ArithOperand.names, CmpOperand.names, BinOperand.names]))
+      have g1 := get_rename_on f Γ s (h s (by simp [Instr.names, ArithOperand.names, CmpOperand.names, BinOperand.names]))
+      rcases ha : Γ.get d with _ | a <;> rcases hb : Γ.get s with _ | b <;> (try cases a) <;> (try cases b) <;>
+        simp [Instr.rename, ArithOperand.rename, CmpOperand.rename, BinOperand.rename, checkInstr, checkArithmetic, checkComparison, checkBinaryLogic, checkBinaryLogicRef, checkUnaryLogic, checkMove, checkExchange, checkLoad, checkStore, g0, g1, ha, hb]
+  | unaryLogic op x =>
+    cases op with
+    | neg =>
+      have g0 := get_rename_on f Γ x (h x (by simp [Instr.names, ArithOperand.names, CmpOperand.names, BinOperand.names]))
+      rcases ha : Γ.get x with _ | a <;> (try cases a) <;>
+        simp [Instr.rename, ArithOperand.rename, CmpOperand.rename, BinOperand.rename, checkInstr, checkArithmetic, checkComparison, checkBinaryLogic, checkBinaryLogicRef, checkUnaryLogic, checkMove, checkExchange, checkLoad, checkStore, g0, ha]
+    | not =>
+      have g0 := get_rename_on f Γ x (h x (by simp [Instr.names, ArithOperand.names, CmpOperand.names, BinOperand.names]))
+      rcases ha : Γ.get x with _ | a <;> (try cases a) <;>
+        simp [Instr.rename, ArithOperand.rename, CmpOperand.rename, BinOperand.rename, checkInstr, checkArithmetic, checkComparison, checkBinaryLogic, checkBinaryLogicRef, checkUnaryLogic, checkMove, checkExchange, checkLoad, checkStore, g0, ha]
   | move d s =>
     cases s with
-    | litInt => rcases ha : Γ.get d with _ | a <;> (try cases a) <;>
-        simp [Instr.rename, ArithOperand.rename, CmpOperand.rename, BinOperand.rename, checkInstr, checkArithmetic, checkComparison, checkBinaryLogic, checkBinaryLogicRef, checkUnaryLogic, checkMove, checkExchange, checkLoad, checkStore, g, ha]
-    | litReal => rcases ha : Γ.get d with _ | a <;> (try cases a) <;>
-        simp [Instr.rename, ArithOperand.rename, CmpOperand.rename, BinOperand.rename, checkInstr, checkArithmetic, checkComparison, checkBinaryLogic, checkBinaryLogicRef, checkUnaryLogic, checkMove, checkExchange, checkLoad, checkStore, g, ha]
-    | mref s => rcases ha : Γ.get d with _ | a <;> rcases hb : Γ.get s with _ | b <;> (try cases a) <;> (try cases b) <;>
-        simp [Instr.rename, ArithOperand.rename, CmpOperand.rename, BinOperand.rename, checkInstr, checkArithmetic, checkComparison, checkBinaryLogic, checkBinaryLogicRef, checkUnaryLogic, checkMove, checkExchange, checkLoad, checkStore, g, ha, hb]
-  | exchange l r => rcases ha : Γ.get l with _ | a <;> rcases hb : Γ.get r with _ | b <;> (try cases a) <;> (try cases b) <;>
-        simp [Instr.rename, ArithOperand.rename, CmpOperand.rename, BinOperand.rename, checkInstr, checkArithmetic, checkComparison, checkBinaryLogic, checkBinaryLogicRef, checkUnaryLogic, checkMove, checkExchange, checkLoad, checkStore, g, ha, hb]
-  | load d s o => rcases ha : Γ.get d with _ | a <;> rcases hb : Γ.get s with _ | b <;> rcases hc : Γ.get o with _ | c <;>
-        (try cases a) <;> (try cases b) <;> (try cases c) <;>
-        simp [Instr.rename, ArithOperand.rename, CmpOperand.rename, BinOperand.rename, checkInstr, checkArithmetic, checkComparison, checkBinaryLogic, checkBinaryLogicRef, checkUnaryLogic, checkMove, checkExchange, checkLoad, checkStore, g, ha, hb, hc]
+    | litInt =>
+      have g0 := get_rename_on f Γ d (h d (by simp [Instr.names, ArithOperand.names, CmpOperand.names, BinOperand.names]))
+      rcases ha : Γ.get d with _ | a <;> (try cases a) <;>
+        simp [Instr.rename, ArithOperand.rename, CmpOperand.rename, BinOperand.rename, checkInstr, checkArithmetic, checkComparison, checkBinaryLogic, checkBinaryLogicRef, checkUnaryLogic, checkMove, checkExchange, checkLoad, checkStore, g0, ha]
+    | litReal =>
+      have g0 := get_rename_on f Γ d (h d (by simp [Instr.names, ArithOperand.names, CmpOperand.names, BinOperand.names]))
+      rcases ha : Γ.get d with _ | a <;> (try cases a) <;>
+        simp [Instr.rename, ArithOperand.rename, CmpOperand.rename, BinOperand.rename, checkInstr, checkArithmetic, checkComparison, checkBinaryLogic, checkBinaryLogicRef, checkUnaryLogic, checkMove, checkExchange, checkLoad, checkStore, g0, ha]
+    | mref s =>
+      have g0 := get_rename_on f Γ d (h d (by simp [Instr.names, ArithOperand.names, CmpOperand.names, BinOperand.names]))
+      have g1 := get_rename_on f Γ s (h s (by simp [Instr.names, ArithOperand.names, CmpOperand.names, BinOperand.names]))
+      rcases ha : Γ.get d with _ | a <;> rcases hb : Γ.get s with _ | b <;> (try cases a) <;> (try cases b) <;>
+        simp [Instr.rename, ArithOperand.rename, CmpOperand.rename, BinOperand.rename, checkInstr, checkArithmetic, checkComparison, checkBinaryLogic, checkBinaryLogicRef, checkUnaryLogic, checkMove, checkExchange, checkLoad, checkStore, g0, g1, ha, hb]
+  | exchange l r =>
+      have g0 := get_rename_on f Γ l (h l (by simp [Instr.names, ArithOperand.names, CmpOperand.names, BinOperand.names]))
+      have g1 := get_rename_on f Γ r (h r (by simp [Instr.names, ArithOperand.names, CmpOperand.names, BinOperand.names]))
+      rcases ha : Γ.get l with _ | a <;> rcases hb : Γ.get r with _ | b <;> (try cases a) <;> (try cases b) <;>
+        simp [Instr.rename, ArithOperand.rename, CmpOperand.rename, BinOperand.rename, checkInstr, checkArithmetic, checkComparison, checkBinaryLogic, checkBinaryLogicRef, checkUnaryLogic, checkMove, checkExchange, checkLoad, checkStore, g0, g1, ha, hb]
+  | load d s o =>
+      have g0 := get_rename_on f Γ d (h d (by simp [Instr.names, ArithOperand.names, CmpOperand.names, BinOperand.names]))
+      have g1 := get_rename_on f Γ s (h s (by simp [Instr.names, ArithOperand.names, CmpOperand.names, BinOperand.names]))
+      have g2 := get_rename_on f Γ o (h o (by simp [Instr.names, ArithOperand.names, CmpOperand.names, BinOperand.names]))
+      rcases ha : Γ.get d with _ | a <;> rcases hb : Γ.get s with _ | b <;> rcases hc : Γ.get o with _ | c <;> (try cases a) <;> (try cases b) <;> (try cases c) <;>
+        simp [Instr.rename, ArithOperand.rename, CmpOperand.rename, BinOperand.rename, checkInstr, checkArithmetic, checkComparison, checkBinaryLogic, checkBinaryLogicRef, checkUnaryLogic, checkMove, checkExchange, checkLoad, checkStore, g0, g1, g2, ha, hb, hc]
   | store d o s =>
     cases s with
-    | litInt => rcases ha : Γ.get d with _ | a <;> rcases hb : Γ.get o with _ | b <;> (try cases a) <;> (try cases b) <;>
-        simp [Instr.rename, ArithOperand.rename, CmpOperand.rename, BinOperand.rename, checkInstr, checkArithmetic, checkComparison, checkBinaryLogic, checkBinaryLogicRef, checkUnaryLogic, checkMove, checkExchange, checkLoad, checkStore, g, ha, hb]
-    | litReal => rcases ha : Γ.get d with _ | a <;> rcases hb : Γ.get o with _ | b <;> (try cases a) <;> (try cases b) <;>
-        simp [Instr.rename, ArithOperand.rename, CmpOperand.rename, BinOperand.rename, checkInstr, checkArithmetic, checkComparison, checkBinaryLogic, checkBinaryLogicRef, checkUnaryLogic, checkMove, checkExchange, checkLoad, checkStore, g, ha, hb]
-    | mref s => rcases ha : Γ.get d with _ | a <;> rcases hb : Γ.get o with _ | b <;> rcases hc : Γ.get s with _ | c <;>
-        (try cases a) <;> (try cases b) <;> (try cases c) <;>
-        simp [Instr.rename, ArithOperand.rename, CmpOperand.rename, BinOperand.rename, checkInstr, checkArithmetic, checkComparison, checkBinaryLogic, checkBinaryLogicRef, checkUnaryLogic, checkMove, checkExchange, checkLoad, checkStore, g, ha, hb, hc]
+    | litInt =>
+      have g0 := get_rename_on f Γ d (h d (by simp [Instr.names, ArithOperand.names, CmpOperand.names, BinOperand.names]))
+      have g1 := get_rename_on f Γ o (h o (by simp [Instr.names, ArithOperand.names, CmpOperand.names, BinOperand.names]))
+      rcases ha : Γ.get d with _ | a <;> rcases hb : Γ.get o with _ | b <;> (try cases a) <;> (try cases b) <;>
+        simp [Instr.rename, ArithOperand.rename, CmpOperand.rename, BinOperand.rename, checkInstr, checkArithmetic, checkComparison, checkBinaryLogic, checkBinaryLogicRef, checkUnaryLogic, checkMove, checkExchange, checkLoad, checkStore, g0, g1, ha, hb]
+    | litReal =>
+      have g0 := get_rename_on f Γ d (h d (by simp [Instr.names, ArithOperand.names, CmpOperand.names, BinOperand.names]))
+      have g1 := get_rename_on f Γ o (h o (by simp [Instr.names, ArithOperand.names, CmpOperand.names, BinOperand.names]))
+      rcases ha : Γ.get d with _ | a <;> rcases hb : Γ.get o with _ | b <;> (try cases a) <;> (try cases b) <;>
+        simp [Instr.rename, ArithOperand.rename, CmpOperand.rename, BinOperand.rename, checkInstr, checkArithmetic, checkComparison, checkBinaryLogic, checkBinaryLogicRef, checkUnaryLogic, checkMove, checkExchange, checkLoad, checkStore, g0, g1, ha, hb]
+    | mref s =>
+      have g0 := get_rename_on f Γ d (h d (by simp [Instr.names, ArithOperand.names, CmpOperand.names, BinOperand.names]))
+      have g1 := get_rename_on f Γ o (h o (by simp [Instr.names, ArithOperand.names, CmpOperand.names, BinOperand.names]))
+      have g2 := get_rename_on f Γ s (h s (by simp [Instr.names, ArithOperand.names, CmpOperand.names, BinOperand.names]))
+      rcases ha : Γ.get d with _ | a <;> rcases hb : Γ.get o with _ | b <;> rcases hc : Γ.get s with _ | c <;> (try cases a) <;> (try cases b) <;> (try cases c) <;>
+        simp [Instr.rename, ArithOperand.rename, CmpOperand.rename, BinOperand.rename, checkInstr, checkArithmetic, checkComparison, checkBinaryLogic, checkBinaryLogicRef, checkUnaryLogic, checkMove, checkExchange, checkLoad, checkStore, g0, g1, g2, ha, hb, hc]
   | other => simp [Instr.rename, checkInstr]
 
-/-- **C30 (renaming), programs**: under a consistent injective renaming of memory regions `type_check`
-returns the same result: `Ok`, or the same error for the same instruction index. -/
-theorem C30_typeCheck_rename (imBig : K → Bool) (f : String → String) (hf : ∀ a b, f a = f b → a = b)
-    (Γ : Decls) (body : List (Instr K)) :
+/-- **C30 (renaming), programs, weakest hypothesis**: `f` injective on the declared names together with the
+names the body mentions. -/
+theorem C30_typeCheck_rename_on (imBig : K → Bool) (f : String → String) (Γ : Decls) (body : List (Instr K))
+    (h : ∀ a ∈ Γ.keys ++ body.flatMap Instr.names, ∀ b ∈ Γ.keys ++ body.flatMap Instr.names, f a = f b → a = b) :
     typeCheck imBig (Γ.rename f) (body.map (Instr.rename f)) = typeCheck imBig Γ body := by
   unfold typeCheck
   generalize 0 = k
   induction body generalizing k with
   | nil => rfl
-  | cons i rest ih => simp only [List.map_cons, typeCheckFrom, C30_checkInstr_rename imBig f hf, ih]
+  | cons i rest ih =>
+    have hi : checkInstr imBig (Γ.rename f) (i.rename f) = checkInstr imBig Γ i :=
+      C30_checkInstr_rename_on imBig f Γ i (fun n hn m hm =>
+        h n (by simp [List.flatMap_cons]; exact Or.inr (Or.inl hn)) m (by simp; exact Or.inl hm))
+    have hrest := ih (fun a ha b hb => h a (by
+        simp only [List.flatMap_cons, List.mem_append] at ha ⊢
+        exact ha.elim Or.inl (fun x => Or.inr (Or.inr x))) b (by
+        simp only [List.flatMap_cons, List.mem_append] at hb ⊢
+        exact hb.elim Or.inl (fun x => Or.inr (Or.inr x))))
+    simp only [List.map_cons, typeCheckFrom, hi, hrest]
+
+
+/-- **C30 (renaming), one instruction**: for a globally injective `f` nothing changes — not even the error. -/
+theorem C30_checkInstr_rename (imBig : K → Bool) (f : String → String) (hf : ∀ a b, f a = f b → a = b)
+    (Γ : Decls) (i : Instr K) :
+    checkInstr imBig (Γ.rename f) (i.rename f) = checkInstr imBig Γ i :=
+  C30_checkInstr_rename_on imBig f Γ i (fun n _ m _ => hf n m)
+
+/-- **C30 (renaming), programs**: under a consistent injective renaming of memory regions `type_check`
+returns the same result: `Ok`, or the same error for the same instruction index. -/
+theorem C30_typeCheck_rename (imBig : K → Bool) (f : String → String) (hf : ∀ a b, f a = f b → a = b)
+    (Γ : Decls) (body : List (Instr K)) :
+    typeCheck imBig (Γ.rename f) (body.map (Instr.rename f)) = typeCheck imBig Γ body :=
+  C30_typeCheck_rename_on imBig f Γ body (fun a _ b _ => hf a b)
+
+/-- The hypothesis cannot be dropped: a renaming that identifies two regions of different types changes the
+verdict (`MOVE i r` is ill-typed; after sending both names to `i` it is `MOVE i i`). -/
+theorem C30_rename_needs_injectivity :
+    ∃ (f : String → String) (Γ : Decls) (body : List (Instr Nat)),
+      typeCheck (fun _ => false) (Γ.rename f) (body.map (Instr.rename f)) ≠ typeCheck (fun _ => false) Γ body :=
+  ⟨fun _ => "i", [("i", .integer), ("r", .real)], [.move "i" (.mref "r")], by decide⟩
 
 /-! ## Non-vacuity -/
 
